@@ -256,6 +256,39 @@ func (x *Exec) readAllFrom(s *State, v Value) (*StrVal, bool) {
 	switch {
 	case name == "io.nopCloser" || name == "io.nopCloserWriterTo":
 		return x.readAllFrom(s, a.V.(*StructVal).F[0])
+	case name == "*io.multiReader":
+		p := a.V.(*PtrVal)
+		fa, _ := x.fieldAddr(s, p, 0)
+		rv, _ := x.load(s, fa.(*PtrVal), nil)
+		rs := rv.(*SliceVal)
+		if !rs.Len.IsConst() {
+			return nil, false
+		}
+		out := x.str("")
+		if rs.Len.K > 0 {
+			el, _ := x.sliceElems(s, rs)
+			for _, e := range el {
+				part, ok := x.readAllFrom(s, e)
+				if !ok {
+					return nil, false
+				}
+				out = x.strConcat(out, part)
+			}
+		}
+		// everything has been consumed
+		x.store(s, fa.(*PtrVal), &SliceVal{Ptr: x.nilPtr(), Len: x.i64(0), Cap: x.i64(0)})
+		return out, true
+	case name == "*strings.Reader":
+		p := a.V.(*PtrVal)
+		fa, _ := x.fieldAddr(s, p, 0)
+		dv, _ := x.load(s, fa.(*PtrVal), nil)
+		pa, _ := x.fieldAddr(s, p, 1)
+		pv, _ := x.load(s, pa.(*PtrVal), nil)
+		data := dv.(*StrVal)
+		pos := pv.(*Term)
+		rest := x.strSlice(data, x.tb.Ite(x.tb.ULe(pos, data.Len), pos, data.Len), data.Len)
+		x.store(s, pa.(*PtrVal), data.Len)
+		return rest, true
 	case name == "*bytes.Reader" || name == "*"+VrfPkg+".ByteSource":
 		p := a.V.(*PtrVal)
 		fa, _ := x.fieldAddr(s, p, 0)
